@@ -573,6 +573,100 @@ def w_recv_sched(apis):
     return r_threads(apis)
 
 
+def w_send_sched(kinds, keymode="callback"):
+    """two threads send one frame each on ONE connection at the same time: every scheduling decision at a lock operation, at the
+    draw of the mask key (os.urandom releases the GIL; a user callback may block) and before each transport write is a solver
+    choice.  The wire carries the two frames whole, one after the other (either order), each the reference encoding of what its
+    sender passed in, masked with one of the keys drawn."""
+    quiet_logging()
+    import os as _os
+    import simnet
+    from .envpatch import EnvPatch, ModProxy
+    k = simnet.Kernel(step_budget=4000, explore_sched=True)
+    net = simnet.Net(k, [{}])
+    simnet.install(k, net)
+    specs = {"bin3": (2, sx.sym_bytes("p", 3)), "bin1": (2, sx.sym_bytes("q", 1)), "ping0": (9, b""), "text2": (1, None), "bin126": (2, None)}
+    ka, kb = sx.sym_bytes("ka", 4), sx.sym_bytes("kb", 4)
+    keys = [ka, kb]
+    draws = []
+
+    def draw(n=4):
+        # the key source is a preemption point: whichever sender draws first gets the first key
+        k.yield_now()
+        key = keys[len(draws)]
+        draws.append(n)
+        k.yield_now()
+        return key
+
+    class YSock(FakeSock):
+        def send(self, data):
+            k.yield_now()
+            return FakeSock.send(self, data)
+
+    def payload_of(kind):
+        op, pl = specs[kind]
+        if kind == "text2":
+            return op, sx.sym_str("t", 2)
+        if kind == "bin126":
+            return op, bytes(126)
+        return op, pl
+
+    errs = []
+    ep = EnvPatch()
+    try:
+        if keymode == "urandom":
+            ep.replace(_os.urandom, draw)
+            ep.replace(_os, ModProxy(_os, urandom=draw))
+            ws = new_ws(YSock())
+        else:
+            ws = new_ws(YSock(), get_mask_key=draw)
+        sock = ws.sock
+        sent = {}
+
+        def call(who, kind):
+            op, pl = payload_of(kind)
+            sent[who] = (op, pl)
+            try:
+                if op == 9:
+                    ws.ping(pl)
+                else:
+                    ws.send(pl, op)
+            except (sx.Control, sx.ConcreteFailure, sx.ReplayMismatch):
+                raise
+            except Exception as e:
+                errs.append("%s: %s" % (who, type(e).__name__))
+
+        pa = k.spawn(lambda: call("A", kinds[0]), "A")
+        call("B", kinds[1])
+        k.block(lambda: pa.done, None)
+    finally:
+        k.shutdown()
+        simnet.uninstall()
+        ep.restore()
+    sx.require(not errs, "concurrent senders: a send call failed (%s)" % "; ".join(errs), kinds=str(kinds))
+    if errs:
+        return
+    sx.require(len(draws) == 2 and all(d == 4 for d in draws), "one 4-byte key drawn per frame", got=str(draws))
+    wire = sock.wire()
+
+    def enc(who, key):
+        op, pl = sent[who]
+        if isinstance(pl, (str, bytes)) or not hasattr(pl, "encode"):
+            data = pl.encode("utf-8") if isinstance(pl, str) else pl
+        else:
+            data = pl.encode("utf-8")
+        return ref_encode(1, op, data, key)
+    cands = [enc(x, k1) + enc(y, k2) for (x, y) in (("A", "B"), ("B", "A")) for (k1, k2) in ((ka, kb), (kb, ka))]
+    L = len(cands[0])
+    sx.require(len(wire) == L, "two concurrent senders: total bytes on the wire == the two frame lengths", kinds=str(kinds), got=len(wire))
+    if len(wire) != L:
+        return
+    sx.require(sx.Or(*[wire == c for c in cands]),
+               "two concurrent senders: the wire carries both frames whole, each exactly as its sender specified (header, key, masked payload), "
+               "under every schedule of lock operations, key draws and writes", kinds=str(kinds), keymode=keymode)
+    cover("send-sched")
+
+
 def obligations(tier):
     thorough = tier == "thorough"
     short = [dict(n=n, nwrites=0) for n in range(0, (9 if thorough else 7))]  # frame <= 14 / 12 bytes: all compositions
@@ -601,6 +695,13 @@ def obligations(tier):
                           "decision at a lock acquire/release and before each transport read is a solver choice",
                    outside=["preemption between two bytecodes not separated by a lock operation or a transport read"],
                    must_cover=["threads"], step_budget=400000, kernel=["frame_buffer.recv_frame (frame lock)", "WebSocket.recv_frame", "recv_data_frame"]),
+        Obligation("W-send-sched", w_send_sched,
+                   [dict(kinds=kk, keymode=m) for kk in (("bin3", "bin1"), ("bin3", "ping0"), ("text2", "bin3"), ("bin126", "bin1")) for m in ("callback", "urandom")],
+                   bounds="2 threads, one send call each (binary 3 / 1 / 126 bytes, text 2 chars, empty ping; payloads and both keys symbolic) on one "
+                          "connection; every scheduling decision at a lock acquire/release, around the draw of the mask key (os.urandom or a "
+                          "get_mask_key callback) and before each transport write is a solver choice",
+                   outside=["preemption between two bytecodes not separated by a lock operation, a key draw or a transport write"],
+                   must_cover=["send-sched"], step_budget=400000, kernel=["WebSocket.send / ping / send_frame (send lock)", "ABNF.format", "ABNF._get_masked"]),
         Obligation("W-order-send", w_order_send, osend,
                    bounds="t = 2..4 sender threads, each frame written in 1..3 pieces (symbolic split points), ALL interleavings of the extracted "
                           "lock/write events (no preemption bound)", must_cover=["order-send", "multi-write-trace"], budget_s=1800,
